@@ -298,6 +298,10 @@ func vC11GenWorld(r *vRand, c *vC11Cfg, failMode int) *vC11World {
 			w.Senders[s] = r.Range(0, 2)
 		}
 	}
+	if r.Chance(1, 6) {
+		// the destination also holds a report of a chain the home chain does not configure (13): not observed
+		w.Reports[13] = []vC11Rep{{root, 1, 2}}
+	}
 	return w
 }
 
